@@ -39,8 +39,8 @@ ASSUMPTIONS = [
     "formats considered to support a type: openssh public: all; openssh private PEM: RSA, DSA, EC; openssh private v1: all; "
     "lsh public/private: RSA, DSA; agentv3: private RSA, DSA; blob/private blob: all (as documented in keys.py docstrings)",
 ]
-MIN = {"quick": {"evaluations": 150000, "nontrivial": 30000, "outcomes": 20},
-       "thorough": {"evaluations": 150000, "nontrivial": 30000, "outcomes": 20}}
+MIN = {"quick": {"evaluations": 105000, "nontrivial": 24000, "outcomes": 45},
+       "thorough": {"evaluations": 105000, "nontrivial": 24000, "outcomes": 45}}
 
 # ----------------------------------------------------------------------------
 # deterministic number theory for the pool
